@@ -9,6 +9,8 @@
 //   A   tree T1 under an arbitrary control script S1;
 //   B   the same T1 after stop()/reset() (in the same tick or spread over ticks), under a pause/resume-only script S2;
 //   B'  a freshly built tree T2 under S2.  The normalised traces of B and B' must be identical (reset == fresh).
+// Modes: --mode random (seeded trees and scripts), --mode exhaustive --alpha N (every single composite x N leaf behaviours per
+// leaf slot x 25 control placements x 2 tick orders; --mode xcount prints the size of that space).
 //
 // Observation: every node is a thin subclass (Mon<T>) of the real class that logs the protected lifecycle hooks
 // (onStart/onFinished/onStop/onPause/onResume/onBlock/onReset/onFinal/onTimeout) and then calls the real one; the root's
@@ -82,7 +84,7 @@ struct LeafStep {
 struct Spec {
     int kind = L_SUCC;
     int mode = 0;               //!< composite mode
-    int times = 0;              //!< Repeat
+    int times = 0;              //!< Repeat (0 = forever)
     int parent = -1, role = 0, depth = 0;
     std::vector<int> kids;      //!< Seq/Par: children; IfElse: [if, then|-1, else|-1]; IfThen: [if0, then0, if1, then1 ...];
                                 //!< Switch: [switch, case..., (default)]; LoopIf: [if, exec]; others: [child]
@@ -107,6 +109,8 @@ struct Script {
     int len = 0;                //!< phase A: number of ticks; phase B: cut-off tick (-1 = run to the end)
     int resume_delay = 0;       //!< ticks between the root's block callback and the harness's resume (0 = inside the callback)
     bool final_resume = false;  //!< phase B end: resume() right before stop()+delete when the root is paused
+    int on_block = 0;           //!< phase A: what the root's block callback does: 0 resume (after resume_delay), 1 stop(), 2 nothing
+    int restarts = 0;           //!< phase A: the root's finish callback does reset()+start() this many times
 };
 
 struct CaseSpec {
@@ -170,7 +174,7 @@ std::string describe(const Script &s, bool phase_a) {
     std::string o;
     char b[64];
     for (const Op &op : s.ops) { snprintf(b, sizeof b, "%s@%d ", kOpName[op.op], op.tick); o += b; }
-    if (phase_a) snprintf(b, sizeof b, "len=%d rd=%d", s.len, s.resume_delay);
+    if (phase_a) snprintf(b, sizeof b, "len=%d rd=%d on_block=%d restarts_in_finish_cb=%d", s.len, s.resume_delay, s.on_block, s.restarts);
     else snprintf(b, sizeof b, "cut=%d rd=%d fr=%d", s.len, s.resume_delay, (int)s.final_resume);
     o += b;
     o += " dt=";
@@ -285,7 +289,9 @@ struct BigStep {
                     if (eval(s.kids[1]) == R_DIV) return R_DIV;
                 }
             case K_REPEAT: {
-                for (int i = 0; i < s.times; ++i) {
+                //! times == 0 means "forever" (pinned by the baseline test RepeatAction.FunctionActionForeverNoBreak)
+                for (int i = 0; s.times == 0 || i < s.times; ++i) {
+                    if (--fuel <= 0) { cut = true; return R_DIV; }
                     int r = eval(s.kids[0]);
                     if (r == R_DIV) return R_DIV;
                     if ((s.mode == 2 && r == R_TRUE) || (s.mode == 1 && r == R_FALSE)) return r;
@@ -445,6 +451,7 @@ struct Tree {
     int user_finals = 0, root_final_events = 0;
     int resume_at = -1;             //!< tick of the harness's scheduled resume after a block notification
     int resume_delay = 0;
+    int on_block = 0, restarts_left = 0;
 
     // big-step bookkeeping (one epoch = one run of the root)
     std::vector<std::pair<int, int>> leaf_order;
@@ -732,7 +739,7 @@ struct Tree {
                 break;
             case K_REPEAT:
                 if (N.pc == 3) finish(N.res);
-                else if (N.iter < s.times) start(0);
+                else if (s.times == 0 || N.iter < s.times) start(0);   // times == 0: forever (pinned by a baseline test)
                 else finish(true);
                 break;
         }
@@ -1035,6 +1042,12 @@ struct Tree {
         fin_pending = false;
         if (succ != fin_result) viol("notify/finish-callback-wrong-result", "callback result differs from the finish");
         if (nd[0].ms != M_FIN) viol("notify/finish-callback-while-not-finished", std::string("root is ") + kMsName[nd[0].ms]);
+        if (restarts_left > 0 && alive) {
+            --restarts_left;
+            cnt("restart_inside_finish_callback");
+            do_op(OP_RESET, "finish-cb");
+            do_op(OP_START, "finish-cb");
+        }
     }
 
     void root_block_cb() {
@@ -1051,7 +1064,9 @@ struct Tree {
             viol("notify/stale-block-callback-after-reset", "the root's block callback was delivered after the root had been reset");
         } else
             viol("notify/block-callback-unexpected", "the root's block callback was delivered without a block of the root");
-        if (was_expected && alive) {
+        if (was_expected && alive && on_block == 1) { cnt("stop_inside_block_callback"); do_op(OP_STOP, "block-cb"); }
+        else if (was_expected && alive && on_block == 2) cnt("block_callback_left_unanswered");
+        else if (was_expected && alive) {
             if (resume_delay == 0) { cnt("resume_inside_block_callback"); do_op(OP_RESUME, "auto"); }
             else resume_at = tick + resume_delay;
         }
@@ -1358,6 +1373,7 @@ struct Driver {
         cap_b = cs.cap_b;
         t.phase = with_a ? "A" : "F";
         t.resume_delay = with_a ? cs.s1.resume_delay : cs.s2.resume_delay;
+        if (with_a) { t.on_block = cs.s1.on_block; t.restarts_left = cs.s1.restarts; }
     }
 
     void post() { loop.runNext([this] { tick(); }, "c17.tick"); }
@@ -1379,6 +1395,7 @@ struct Driver {
         t.record = true;
         t.trace.clear();
         t.resume_delay = cs.s2.resume_delay;
+        t.on_block = 0; t.restarts_left = 0;
         t.resume_at = -1;
         t.idle_ticks = 0;
         op_i = 0;
@@ -1652,6 +1669,9 @@ struct Gen {
             }
         }
         std::stable_sort(s.ops.begin(), s.ops.end(), [](const Op &a, const Op &b) { return a.tick < b.tick; });
+        unsigned ob = (unsigned)r.below(10);
+        s.on_block = ob < 8 ? 0 : ob == 8 ? 1 : 2;
+        s.restarts = r.chance(1, 5) ? 1 + (int)r.below(2) : 0;
     }
 
     void script_b(Script &s) {
